@@ -151,7 +151,7 @@ class GenTheory(Theory):
         return None
 
     def ev_JoinedStr(self, ex, e, st):
-        """f-string of constant text and {expr} parts whose values are strings or ints (no conversion, no format spec)"""
+        """f-string of constant text and {expr} parts whose values are strings or ints (no conversion other than !s, no format spec)"""
         outs = [(st, [])]
         for part in e.values:
             nxt = []
@@ -160,7 +160,8 @@ class GenTheory(Theory):
                     nxt.append((st2, acc))
                 elif isinstance(part, ast.Constant):
                     nxt.append((st2, acc + [smt_str(part.value)]))
-                elif isinstance(part, ast.FormattedValue) and part.conversion == -1 and part.format_spec is None:
+                elif isinstance(part, ast.FormattedValue) and part.conversion in (-1, 115) and part.format_spec is None:
+                    # (!s on a str or an int is what plain formatting does)
                     for st3, v in ex.eval(part.value, st2):
                         if isinstance(v, Exc):
                             nxt.append((st3, v))
